@@ -488,6 +488,116 @@ def classify_plain(res, c):
         res["violations"].append({"oracle": v[0], "mechanism": v[0], "detail": v[1], "case": {"mode": "plain", "cases": [0, 1]}})
 
 
+def run_twins(res, c):
+    """Two DIFFERENT decorated callables that look alike (made by one factory: same module, same __name__, same
+    signature), asked for with equal arguments while the other one is still in flight: each convention must run
+    the callable's OWN body."""
+    import asynq
+    from asynq import asynq as A
+    from asynq import async_call, async_proxy, make_async_decorator
+    from asynq.tools import DeduplicateDecorator, acached_per_instance, alru_cache, aretry, deduplicate
+    from .. import harness
+
+    def wrap(deco, fn, sfn):
+        if deco == "asynq":
+            return A()(fn)
+        if deco == "pair":
+            return A(sync_fn=sfn)(fn)
+        if deco == "dedup":
+            return deduplicate()(A()(fn))
+        if deco == "dedup_pair":
+            return deduplicate()(A(sync_fn=sfn)(fn))
+        if deco == "alru":
+            return alru_cache(maxsize=8)(A()(fn))
+        if deco == "aretry":
+            return aretry(ValueError, max_tries=2, sleep=0)(A()(fn))
+        if deco == "proxy":
+            inner = A()(fn)
+
+            def fetch(x, y=10):
+                return inner.asynq(x, y)
+
+            return async_proxy()(fetch)
+        raise AssertionError(deco)
+
+    for deco in ("asynq", "pair", "dedup", "dedup_pair", "alru", "aretry", "proxy"):
+        for how in ("function", "method", "staticmethod"):
+            if deco == "proxy" and how == "method":
+                continue  # (the proxy above forwards positional x, y only)
+            asynq.scheduler.reset()
+            DeduplicateDecorator.tasks.clear()
+            rt = harness.HarnessRT({"nodes": [], "kinds": 1})
+            ctr = itertools.count()
+
+            def make(tag):
+                if how == "method":
+                    def fetch(self, x, y=10):
+                        yield harness.HItem(rt, 0, "t%d" % next(ctr), ("c09t", next(ctr)))
+                        return (tag, x, y)
+
+                    def sfetch(self, x, y=10):
+                        return (tag, x, y)
+
+                    K = type("Store", (object,), {"fetch": wrap(deco, fetch, sfetch), "__eq__": lambda s, o: True, "__hash__": lambda s: 7})
+                    return K().fetch
+
+                def fetch(x, y=10):
+                    yield harness.HItem(rt, 0, "t%d" % next(ctr), ("c09t", next(ctr)))
+                    return (tag, x, y)
+
+                def sfetch(x, y=10):
+                    return (tag, x, y)
+
+                w = wrap(deco, fetch, sfetch)
+                if how == "staticmethod":
+                    K = type("Store", (object,), {"fetch": staticmethod(w)})
+                    return K.fetch
+                return w
+
+            f1, f2 = make("users"), make("posts")
+            want = (("users", 7, 10), ("posts", 7, 10))
+
+            @A()
+            def both_yield():
+                return (yield f1.asynq(7), f2.asynq(7))
+
+            @A()
+            def both_async_call():
+                return (yield async_call.asynq(f1, 7), async_call.asynq(f2, y=10, x=7))
+
+            @A()
+            def second_while_first_pending():
+                t1 = f1.asynq(7)
+                v2 = f2.asynq(7).value()
+                v1 = yield t1
+                return (v1, v2)
+
+            convs = [
+                ("yield both .asynq()", both_yield),
+                ("yield both through async_call", both_async_call),
+                (".asynq().value() of one while the other is pending", second_while_first_pending),
+                ("sync calls", lambda: (f1(7), f2(7))),
+            ]
+            rt.attach()
+            try:
+                for name, fn in convs:
+                    got = outcome(fn)
+                    res["evaluations"] += 1
+                    c["lookalike_callables_compared"] = c.get("lookalike_callables_compared", 0) + 1
+                    if got != ("val", want) and len(res["violations"]) < 8:
+                        res["violations"].append(
+                            {
+                                "oracle": "lookalike-callables-confused",
+                                "mechanism": "lookalike-callables-confused/" + deco,
+                                "detail": {"decorator": deco, "binding": how, "convention": name, "expected": want, "observed": repr(got)[:200]},
+                                "case": {"mode": "twins", "cases": [0, 1]},
+                            }
+                        )
+            finally:
+                rt.detach()
+            res["nontrivial"].append(hash(("twins", deco, how)) & 0xFFFFFFFFFFFF)
+
+
 def cells():
     out = []
     for deco in DECOS:
@@ -507,6 +617,7 @@ def plan(tier, seed, build, scale):
     per = (n + k - 1) // k
     units = [{"mode": "matrix", "cases": [a, min(n, a + per)]} for a in range(0, n, per)]
     units.append({"mode": "plain", "cases": [0, 1]})
+    units.append({"mode": "twins", "cases": [0, 1]})
     nsh = len(DECOS) * len(BODIES) * (4 if tier == "quick" else 24)
     units.append({"mode": "shared_ns", "cases": [0, nsh // 2]})
     units.append({"mode": "shared_ns", "cases": [nsh // 2, nsh]})
@@ -525,6 +636,10 @@ def run_unit(unit, progress):
         progress(0)
         classify_plain(res, c)
         res["evaluations"] = 3
+        return res
+    if unit["mode"] == "twins":
+        progress(0)
+        run_twins(res, c)
         return res
     allc = cells()
     a, b = unit["cases"]
@@ -587,7 +702,7 @@ def run_unit(unit, progress):
 
 def reach(c, tier):
     out = []
-    for k in ["cells_" + d for d in DECOS] + ["cells_binding_" + b for b in BINDINGS] + ["plain_callables", "shared_namespace_runs", "requests_from_inside_the_running_body"]:
+    for k in ["cells_" + d for d in DECOS] + ["cells_binding_" + b for b in BINDINGS] + ["plain_callables", "shared_namespace_runs", "requests_from_inside_the_running_body", "lookalike_callables_compared"]:
         if not c.get(k):
             out.append("%s is zero" % k)
     if c.get("cells", 0) < len(cells()):
